@@ -1154,4 +1154,12 @@ def _share_string_or_reference():
     # (parse_fragments_from_token, with its two listed findings on mixed quoting, stays with C09)
 
 
+    # "each reference evaluates to the defined value" presupposes that the references of a string are found:
+    # symbol_syntax.split / _find_symbol_reference / _extract_fragment are under contract in C09 (conservation,
+    # valid fragments, termination), "the reference found is the leftmost one" is its labelled bounded stand-in;
+    # both carry C08 as well.  (After the seeded change C08-s5, which resumed the search two characters too far.)
+    share_contracts('C08', 'contracts.C09_strings', lambda q: q.startswith('exactly_lib.symbol.symbol_syntax:'))
+
+
 M.after_load = _share_string_or_reference
+M.shared_checks = [('C09', 'symbol_syntax.split (leftmost references)')]
